@@ -81,11 +81,13 @@ PROPS = {
     "C12": proc("corr.C12", "PROCFAULT", "props/C12.v", "failures (1-20 %) on every kind of call of all three sinks, continuous recorder on/off; each history ends with a fault-free recovery tail "
                 "(max+1 motionless frames, then max(1,trigger) motion frames, window open); compared projection: all calls with ids erased + panics; spec S12 && S12_recovers"),
     "C13": {"stages": [{"harness": "PROCFAULT", "corr": "corr.C13", "n": {"quick": 160, "thorough": 3000}, "shard": 20},
-                       {"harness": "PARSE", "corr": "corr.C13p", "n": {"quick": 300, "thorough": 6000}, "shard": 60}],
+                       {"harness": "PARSE", "corr": "corr.C13p", "n": {"quick": 300, "thorough": 6000}, "shard": 60},
+                       {"harness": "E2E", "corr": "corr.E2E14", "n": {"quick": 5, "thorough": 100}, "shard": 1}],
             "theorems": "props/C13.v",
             "rule": (PROC_RULE % "faults on all sinks, bad frames at rate 0-20 % incl. doubled bad frames; full trace compared; spec S13") +
                     " || parser stage: raw Lepton/Boson frames 2x2..8x7, edge 0-4, zeros planted per position class (border, first/last interior pixel, just inside/outside the border), "
-                    "extreme values, random telemetry words, through the real lepton3.ParseRawFrame / convertRawBosonFrame (driver binary); non-trivial = contains a zero pixel",
+                    "extreme values, random telemetry words, through the real lepton3.ParseRawFrame / convertRawBosonFrame (driver binary); non-trivial = contains a zero pixel"
+                    " || handleConn's bad-frame branch (event + camera-restart request, failing fast without D-Bus) inside end-to-end sessions with bad frames: the frames each file holds",
             "trusted_base": PROC_TB + ["parser stage: frames are parsed into a fresh (zeroed) frame by the driver; temperatures compared as float64 bit patterns; encoding/binary trusted"]},
     "C15": det("corr.C15", "DET15", "props/C15.v", "dynamic threshold with all four unset/set combinations of temp-thresh-min/max, scene mean below/inside/above the range, slow warming, preview 0-3 frames; "
                "background (all pixels), weights (checksum of float32 bit patterns), threshold and backgroundFrames compared after every frame; spec S15"),
